@@ -123,7 +123,7 @@ for n in ["plain_get_seq", "plain_get_env", "plain_get_fault", "plain_touch_seq"
           "plain_write_missing_dir_env", "plain_invalid_name_empty", "plain_invalid_name_dot", "plain_invalid_name_slash", "plain_invalid_name_backslash"]:
     mode = "rely environment (any number of peers: rebinding, eviction, mkdir, restamping) between every two calls" if n.endswith("env") else \
         "one injected failure at any call, errno in {EIO,EACCES,ENOSPC,ESTALE,..}" if n.endswith("fault") else "sequential"
-    unit(K("plain_ops", n, functions=PLAIN, timeout=2400 if ("set" in n or "put" in n) else 1200, mem_gb=12,
+    unit(K("plain_ops", n, functions=PLAIN, timeout=1800 if ("set" in n or "put" in n) else 1200, mem_gb=12,
            bounds="2 keys, each present/absent; directory present/missing; any capacity; any RNG draw; " + mode))
 unit(K("plain_ops", "plain_ops_sanity_twin", functions=PLAIN, expect="fail", timeout=1200, mem_gb=12))
 
@@ -142,7 +142,7 @@ unit(K("cache_dir_ops", "c05_cleanup_temp_vanish", functions=CDIR, timeout=900,
 for n in ["sharded_get_01", "sharded_get_10", "sharded_touch_01", "sharded_set_absent", "sharded_set_in_secondary", "sharded_set_in_primary_heavy",
           "sharded_put_in_secondary", "sharded_put_absent_heavy", "sharded_set_absent_env", "sharded_put_absent_fault",
           "sharded_write_notrigger", "sharded_invalid_names"]:
-    unit(K("sharded_ops", n, functions=SHARDED, timeout=1800, mem_gb=(18 if ("set" in n or "put" in n or "write" in n or "invalid" in n) else 10),
+    unit(K("sharded_ops", n, functions=SHARDED, timeout=1500, mem_gb=(18 if ("set" in n or "put" in n or "write" in n or "invalid" in n) else 10),
            bounds="3 shards, candidate shards fixed to (0,1)/(1,0) (mapping itself: engine M), each shard dir present/missing, "
                   "key absent / in primary / in secondary, arbitrary load estimates"))
 unit(K("sharded_ops", "c12_new_clamps", functions=["sharded::Cache::new"], bounds="num_shards 0..3, any capacity", timeout=900, rules=None))
@@ -154,7 +154,7 @@ unit(K("sharded_ops", "sharded_ops_sanity_twin", functions=SHARDED, expect="fail
 _root = os.path.dirname(os.path.dirname(os.path.dirname(os.path.abspath(__file__))))
 STACK_NAMES = re.findall(r"stackc?_harness!\((\w+),", open(os.path.join(_root, "harness", "stack_ops.rs")).read())
 for n in STACK_NAMES:
-    unit(K("stack_ops", n, functions=STACK, timeout=1800, mem_gb=int(os.environ.get("KV_STACK_MEM", "0")) or (18 if ("gou" in n or "ensure" in n or "temp" in n or "set_w1" in n or "put_w1" in n or "bytes" in n) else 10),
+    unit(K("stack_ops", n, functions=STACK, timeout=1500, mem_gb=int(os.environ.get("KV_STACK_MEM", "0")) or (18 if ("gou" in n or "ensure" in n or "temp" in n or "set_w1" in n or "put_w1" in n or "bytes" in n) else 10),
            bounds="per level: key absent / value A / value B; populate outcome {value, NotFound, other error}; judge answer any",
            panic_ok=("auto_sync failed, and failure semantics are unclear",) if "fault" in n else (), covers="any"))
 unit(K("stack_ops", "stack_ops_sanity_twin", functions=STACK, expect="fail", timeout=2400, mem_gb=10))
